@@ -97,7 +97,7 @@ _p('C01', ['R20', 'R8g', 'R8f', 'R8d', 'R8e', 'R45', 'R23lex', 'R69', 'R19', 'R7
    'strings that are not grammar-valid are outside the statement. The parser side is covered at token-kind level by C07.',
    'Exact decisions on regex languages and on the dataflow of two option values; a set of necessary conditions, not a proof of the round trip.',
    [TRUST_RE, 'pv/rx.py', T_CFG])
-_p('C02', ['R1', 'R36', 'R49', 'R28', 'R29', 'R5', 'R12', 'R64', 'R15', 'R14', 'R58'],
+_p('C02', ['R1', 'R36', 'R49', 'R28', 'R29', 'R5', 'R12', 'R64', 'R15', 'R14', 'R58', 'R53', 'R50'],
    'abstract interpretation of two parallel lists; must-pass-through / exactly-once path checks on CFGs; propositional equivalence of sibling predicates',
    'R1: _interpret_node updates the triple list and the epidata list with the same operation in the same order on every path '
    '(so triples[i] and epidata[i] stay in step) and attaches POP to the last epidata entry of the nested node. R36: exactly one '
@@ -110,7 +110,7 @@ _p('C02', ['R1', 'R36', 'R49', 'R28', 'R29', 'R5', 'R12', 'R64', 'R15', 'R14', '
    'search in layout.configure) is not decided.',
    'Path and pairing facts that hold on every CFG path of the anchored functions; necessary conditions of the round trip.',
    [T_CFG, T_CG])
-_p('C03', ['R4', 'R50', 'R51', 'R12', 'R28', 'R29', 'R64', 'R67', 'R14', 'R58'],
+_p('C03', ['R4', 'R50', 'R51', 'R12', 'R28', 'R29', 'R64', 'R67', 'R14', 'R58', 'R53', 'R5'],
    'structural type inference + truthiness-context lint; regex language intersection on model role tables; must-pass-through on the node map',
    'R4: no value typed as a constant (target, concept, tree atom) is tested for truthiness anywhere on the encode/decode paths, '
    'so 0, 0.0 and "" are never dropped. R50: only variables become keys of the node map. R51: the alignment of a quoted atom '
@@ -133,7 +133,7 @@ _p('C04', ['R5', 'R1b', 'R8h', 'R11', 'R49', 'R51', 'R58', 'R29', 'R64', 'R6', '
    'That the list of triples equals the documented reading for every text is not decided as a whole (depth-first order is '
    'covered by R1 under C02).',
    'Structural necessary conditions; each violation names the call or branch.', [T_CG, T_TY, TRUST_RE])
-_p('C05', ['R26', 'R27', 'R47', 'R23model', 'R14', 'R50'],
+_p('C05', ['R26', 'R27', 'R47', 'R23model', 'R14', 'R50', 'R53', 'R5'],
    'symbolic list-shape evaluation; class-hierarchy check; typestate over sort/top; regex language equivalence; points-to mutation effects',
    'R26: _rearrange stores concat(b[:k], sorted(b[k:], key=key)) with k = 1 exactly under the test that establishes a leading '
    '"/" branch and k = 0 otherwise (a permutation that keeps the concept first, stable, ascending), recurses into every nested '
@@ -145,7 +145,7 @@ _p('C05', ['R26', 'R27', 'R47', 'R23model', 'R14', 'R50'],
    'That configure of the reordered triples yields the same graph content (needs C06) is not decided.',
    'Exact symbolic facts on the anchored functions plus a whole-program mutation analysis; necessary conditions.',
    [T_CFG, T_TY, 'pv/effects.py Andersen-style points-to with type-pruned flow', TRUST_RE])
-_p('C07', ['R19', 'R9', 'R16', 'R43', 'R18', 'R35', 'R10', 'R6', 'R23lex', 'R8a', 'R8b', 'R8c', 'R8d', 'R8e', 'R8f', 'R69'],
+_p('C07', ['R19', 'R9', 'R16', 'R43', 'R18', 'R35', 'R10', 'R6', 'R23lex', 'R8a', 'R8b', 'R8c', 'R8d', 'R8e', 'R8f', 'R69', 'R41', 'R59'],
    'token-kind abstract interpretation of the parser against a reference recogniser (bounded); typestate dataflow; call-result-use lint',
    'R19: the parser functions and TokenIterator are interpreted over token *kinds* (all sequences up to length 5, nesting 2 in '
    'the quick tier; 8 and 3 in the thorough tier) and acceptance, tree skeleton and the index of the failing token are compared '
@@ -185,7 +185,7 @@ _p('C11', ['R31', 'R3', 'R38', 'R33', 'R36', 'R44', 'R62', 'R63', 'R15'],
    'after a non-matching entry. R36/R44: the layout diagnostics reify_edges relies on.',
    'That dereify(reify(g)) equals g down to the text is not decided.',
    'Dataflow and path facts; necessary conditions.', [T_CFG, T_CG])
-_p('C12', ['R2', 'R3', 'R31', 'R14', 'R53', 'R24', 'R33', 'R63', 'R65', 'R66', 'R32', 'R15', 'R38'],
+_p('C12', ['R2', 'R3', 'R31', 'R14', 'R53', 'R24', 'R33', 'R63', 'R65', 'R66', 'R32', 'R15', 'R38', 'R50'],
    'typed partial-map access lint with dominating guards; pipeline order on CFG paths; selection-predicate equivalence',
    'R2: Graph.epidata is treated as a partial map everywhere (every keyed read is guarded, uses .get, or is total by '
    'construction; defect F9). R3: every transformation passes top= (defect F12). R53: configure drops superfluous POPs before '
